@@ -1521,9 +1521,13 @@ func LabelFailureStage(s *Sim, st *Step) *Violation {
 		strings.Contains(log, "invalid proof") || strings.Contains(log, "proof height") || strings.Contains(log, "consensus state"):
 		s.Label("stage:proof")
 	case strings.Contains(log, "callback failed") || strings.Contains(log, "cannot unmarshal"):
+		// the packet keeper has already written the receipt when the application callback fails
 		s.Label("stage:callback")
-	case strings.Contains(log, "acknowledgement already exists") || strings.Contains(log, "acknowledgement exists"):
-		s.Label("stage:late")
+		s.Label("stage:after-first-write")
+	case strings.Contains(log, "route not found") && st.Kind == "recv":
+		s.Label("stage:after-first-write")
+	case strings.Contains(log, "already exists"):
+		s.Label("stage:after-first-write")
 	case strings.Contains(log, "already has been received") || strings.Contains(log, "commitment bytes are not equal") ||
 		strings.Contains(log, "sequence illegal"):
 		s.Label("stage:replay-protection")
